@@ -8,7 +8,7 @@ from ..report import Run
 from ..skel import recv_path, render, root_attr, skeletons, term_classes
 from ..symex import (Alt, CondI, CtxV, Hole, JoinP, Lit, Obj, One, Opaque, Phi, Rep, RepI, SlotP, Str, Sym, show,
                      walk_parts)
-from .c16 import NO_TABLE, traversed_attrs
+from .c16 import NO_TABLE, traversal_shapes, traversed_attrs
 
 
 def self_attrs_in(v, depth=0, acc=None) -> set[str]:
@@ -222,8 +222,18 @@ def check(program: Program, run: Run) -> None:
                 rendered.setdefault(ra, part)
         nf = c.resolve("nodes_")
         trav = traversed_attrs(nf, c) if nf is not None and nf.cls.name != "Node" else set()
+        shapes = traversal_shapes(nf, c) if nf is not None and nf.cls.name != "Node" else {}
         for a, part in sorted(rendered.items()):
             ok = a in trav
+            # a child that is rendered as the k-th component of a tuple element must be reached as that component:
+            # `for x in self.a: if isinstance(x, Node): x.nodes_()` silently skips tuples
+            import re as _re
+            rp_full = recv_path(part.recv)
+            m = _re.match(r"^" + _re.escape(a) + r"\[\]\[(\d+)\]", rp_full)
+            if ok and m and a in shapes:
+                want = f"[][{m.group(1)}]"
+                if not any(sh.startswith(want) for sh in shapes[a]):
+                    ok = False
             owner = part.src[0].rsplit(".", 1)[0] if part.src else c.qualname
             if owner in ("Function", "Term") or program.find_cls(owner) is None:
                 owner = c.resolve("get_sql").cls.qualname
